@@ -63,7 +63,9 @@ impl<'a> SocketWrite<'a> {
 
 impl EventSource for SocketWrite<'_> {
     fn subscribe(&mut self, co: CoroutineImpl) {
-        let io_data = self.io_data;
+        // once the coroutine is stored below another thread may resume it; it can then run to
+        // its end and drop the socket, so use our own reference after the store
+        let io_data = (*self.io_data).clone();
 
         #[cfg(feature = "io_timeout")]
         if let Some(dur) = self.timeout {
